@@ -706,3 +706,12 @@ Proof.
   destruct (s_append_all g3 gs) as [g4 [u4| |]]; cbn [fst] in *; auto.
   apply (reach_op g4 SMerge H4). intros ? [[=]|[=]].
 Qed.
+
+(* histories without append/insert, for examples *)
+Definition simple_op (o : sop) : Prop := match o with SAppend _ | SInsert _ => False | _ => True end.
+Lemma reachable_fold ops : forall g, reachable g -> Forall simple_op ops -> reachable (fold_left s_run ops g).
+Proof.
+  induction ops as [|o t IH]; intros g Hg Hall; cbn [fold_left]; [exact Hg|].
+  inversion Hall as [|? ? Ho Ht]; subst. apply IH; [|exact Ht].
+  apply reach_op; [exact Hg|]. intros other [->| ->]; destruct Ho.
+Qed.
